@@ -254,7 +254,7 @@ func (P *Program) sliceFunctions(prop string) []string {
 }
 
 func (ct *Contract) mentions(prop string) bool {
-	for _, l := range [][]*Clause{ct.Requires, ct.Ensures, ct.Invs, ct.Uses, ct.Sites} {
+	for _, l := range [][]*Clause{ct.Requires, ct.Ensures, ct.Invs, ct.Uses, ct.Sites, ct.Steps} {
 		for _, cl := range l {
 			if cl.hasTag(prop) {
 				return true
